@@ -38,7 +38,16 @@ StrCases == {[carrier |-> "String", wrap |-> w.wrap, vals |-> w.vals, R |-> R] :
 OtherCases == {[carrier |-> k, wrap |-> "bare", vals |-> <<0>>, R |-> R] : k \in OtherCarriers,
                R \in {NoR} \cup {r \in NumRs : Cardinality(r.minInc) + Cardinality(r.maxInc) + Cardinality(r.minExc) + Cardinality(r.maxExc) = 1}}
 
-Space == CASE Slice = "int" -> IntCasesOK [] Slice = "str" -> StrCases [] OTHER -> OtherCases
+\* thorough: a wider neighbourhood of the bounds for the carriers with the full i32 bound range
+WideBounds == -2..2
+WideOffsets == -3..3
+WideRs == {[present |-> TRUE, minInc |-> a, maxInc |-> b, minExc |-> x, maxExc |-> y,
+            len |-> {}, minLen |-> {}, maxLen |-> {}, enum |-> "absent"] :
+             a \in FacetSet(WideBounds), b \in FacetSet(WideBounds), x \in FacetSet(WideBounds), y \in FacetSet(WideBounds)}
+WideCases == {[carrier |-> k, wrap |-> w, vals |-> <<v>>, R |-> R] : k \in {"i32", "i64"}, w \in {"bare", "some"}, R \in WideRs, v \in WideOffsets \cup {LOW, HIGH}}
+WideCasesOK == {x \in WideCases : x.carrier = "i64" \/ x.vals[1] \notin {LOW, HIGH}}
+
+Space == CASE Slice = "int" -> IntCasesOK [] Slice = "str" -> StrCases [] Slice = "int_wide" -> WideCasesOK [] OTHER -> OtherCases
 
 MCInit == c \in Space
 MCNext == UNCHANGED c
